@@ -32,6 +32,17 @@ type entry struct {
 	G      *gen.Graph
 	Vars   map[string]any
 	Script []drive.Stim
+	Timer  bool // instance gets a mock clock and the timer definition builder
+}
+
+// clk advances the mock clock; fired (if not "") is the timer expression the
+// model is told has fired.
+func clk(sec int, fired string) drive.Stim {
+	s := drive.Stim{Kind: "clock", ClockS: sec}
+	if fired != "" {
+		s.Ev = &model.Ev{Kind: "timer", Ref: fired}
+	}
+	return s
 }
 
 func ans() drive.Stim { return drive.Stim{Kind: "answer"} }
@@ -131,6 +142,44 @@ func corpus() []entry {
 		b.Connect(j, en)
 		add("two catch events in parallel", b.G, nil, drive.Stim{Kind: "event", Ev: &model.Ev{Kind: "message", Ref: "m1"}}, ans(), drive.Stim{Kind: "event", Ev: &model.Ev{Kind: "message", Ref: "m0"}}, ans())
 	}
+	// timers (mock clock): a duration timer that fires while the catch event
+	// listens; a cycle timer next to a task; a timer that never fires
+	{
+		b := gen.NewB()
+		st := b.Add(gen.KStart)
+		c := b.Add(gen.KCatch)
+		c.Defs = []gen.EventDef{{Kind: "timer", TimerKind: "timeDuration", TimerExpr: "PT10S"}}
+		t := b.Add(gen.KTask)
+		en := b.Add(gen.KEnd)
+		b.Connect(st, c)
+		b.Connect(c, t)
+		b.Connect(t, en)
+		out = append(out, entry{Name: "timer catch event listening, fires", G: b.G, Timer: true,
+			Script: []drive.Stim{clk(5, ""), clk(5, "PT10S"), ans()}})
+	}
+	{
+		b := gen.NewB()
+		st := b.Add(gen.KStart)
+		f := b.Add(gen.KPar)
+		b.Connect(st, f)
+		j := b.Add(gen.KPar)
+		c := b.Add(gen.KCatch)
+		c.Defs = []gen.EventDef{{Kind: "timer", TimerKind: "timeCycle", TimerExpr: "R3/PT10S"}}
+		t1 := b.Add(gen.KTask)
+		b.Connect(f, c)
+		b.Connect(c, t1)
+		b.Connect(t1, j)
+		t2 := b.Add(gen.KTask)
+		b.Connect(f, t2)
+		b.Connect(t2, j)
+		c2 := b.Add(gen.KCatch)
+		c2.Defs = []gen.EventDef{{Kind: "timer", TimerKind: "timeDuration", TimerExpr: "PT1H"}}
+		b.Connect(j, c2)
+		en := b.Add(gen.KEnd)
+		b.Connect(c2, en)
+		out = append(out, entry{Name: "cycle timer beside a task, then a timer that never fires", G: b.G, Timer: true,
+			Script: []drive.Stim{ans(), clk(10, "R3/PT10S"), clk(10, ""), ans(), clk(30, "")}})
+	}
 	return out
 }
 
@@ -184,7 +233,7 @@ func run(d descriptor, k int) *result {
 	}
 	prog := &gen.Program{G: e.G, DefaultLang: "expr"}
 	tr := quiesce.Begin()
-	in, err := drive.New(prog.XML(), drive.Options{Vars: e.Vars, Tracker: tr})
+	in, err := drive.New(prog.XML(), drive.Options{Vars: e.Vars, Tracker: tr, MockClock: e.Timer})
 	if err != nil {
 		r.Symptom, r.Detail = "construct", err.Error()
 		return r
@@ -267,6 +316,11 @@ func run(d descriptor, k int) *result {
 					tt.Do()
 				}
 			}()
+		case "clock":
+			in.Clock.Add(time.Duration(s.ClockS) * time.Second)
+			if s.Ev != nil {
+				m.Event(*s.Ev)
+			}
 		case "event":
 			m.Event(*s.Ev)
 			ev := drive.Signal(s.Ev.Ref)
